@@ -26,6 +26,7 @@ func checkC08(c *Ctx) {
 	c.useRules(ruleP8, ruleP5, ruleP9, ruleG6)
 	c.useRules(ruleP6)
 	c.retainedInsertStores()
+	c.retainedIsDeepCopy()
 	c.endOfLevelsSignal()
 	c.R.Rule(ruleG5, "storage whose address is handed out of a critical section (the retained message returned by the lookup) is never mutated in place afterwards: no Decode/Set*/Encode-into/copy-into on a value loaded from the stored field; updates replace the stored object by a freshly allocated one.")
 	c.R.Rule(ruleG7, "a *PublishMessage obtained from the retained-store lookup is never the receiver of a mutator unless it is the result of Clone().")
@@ -194,6 +195,44 @@ func (c *Ctx) cloneBeforeMutate() {
 		retainedCall := c.calls(fn, pkgTopics, "Manager", "Retained")[0]
 		lookupDst := ir.PathOf(retainedCall.Common().Args[2])
 		nmut := 0
+		// a message that comes out of the lookup: an element of the destination slice (or of a sub-slice of it)
+		elemOfLookup := func(v ssa.Value) bool {
+			u, ok := ir.SeeThrough(v).(*ssa.UnOp)
+			if !ok {
+				return false
+			}
+			ia, ok := u.X.(*ssa.IndexAddr)
+			if !ok {
+				return false
+			}
+			base := ir.PathOf(ia.X)
+			if base.Root == lookupDst.Root && strings.HasPrefix(base.String(), lookupDst.String()) {
+				return true
+			}
+			if sl, ok := ir.SeeThrough(ia.X).(*ssa.Slice); ok {
+				if b2 := ir.PathOf(sl.X); b2.Root == lookupDst.Root {
+					return true
+				}
+			}
+			return false
+		}
+		// handing such a message to a function that mutates its parameter is a mutation too
+		for _, call := range ir.Calls(fn) {
+			g := call.Common().StaticCallee()
+			// Clone is the sanctioned copier (it only reads a decoded, clean message)
+			if g == nil || g.Blocks == nil || !c.P.InLib(g) || publishMutators[g.Name()] || g.Name() == "Clone" {
+				continue
+			}
+			for i, a := range call.Common().Args {
+				if i >= len(g.Params) || !elemOfLookup(a) {
+					continue
+				}
+				if m := mutatesPublishParam(g, g.Params[i], 2); m != "" {
+					nmut++
+					c.R.Bad(ruleG7, fmt.Sprintf("%s:%s-mutates-retained-argument", name, g.Name()), c.P.InstrPos(call), "a message obtained from the retained-store lookup is handed to "+g.Name()+", which changes it in place ("+m+"): the stored retained message is shared by every connection that subscribes to it - two deliveries write and read it at the same time, and later subscribers get the changed message")
+				}
+			}
+		}
 		for _, call := range ir.Calls(fn) {
 			f := call.Common().StaticCallee()
 			if f == nil || !publishMutators[f.Name()] || len(call.Common().Args) == 0 || namedName(f.Signature.Recv().Type()) != "PublishMessage" && namedName(f.Signature.Recv().Type()) != "header" {
@@ -472,4 +511,37 @@ func (c *Ctx) cloneIsDeep() {
 		}
 	}
 	c.R.Check(len(bad) == 0, ruleG7, "PublishMessage.Clone:shares-nothing-with-the-original", c.P.Pos(fn.Pos()), "no slice or struct value of the receiver is stored into the clone", "Clone copies slice headers of the original into the clone ("+joinStr(bad, ", ")+"): a mutator applied to the clone (SetQoS on the retained-delivery path) rewrites bytes of the stored retained message and of its encoded image")
+}
+
+// mutatesPublishParam: fn calls a mutator of PublishMessage / header on its parameter p (directly, or by handing it to a
+// library function that does); returns the name of the mutator found.
+func mutatesPublishParam(fn *ssa.Function, p *ssa.Parameter, depth int) string {
+	for _, call := range ir.Calls(fn) {
+		f := call.Common().StaticCallee()
+		if f == nil || call.Common().IsInvoke() || len(call.Common().Args) == 0 {
+			continue
+		}
+		if publishMutators[f.Name()] && f.Signature.Recv() != nil && (namedName(f.Signature.Recv().Type()) == "PublishMessage" || namedName(f.Signature.Recv().Type()) == "header") {
+			recv := ir.SeeThrough(call.Common().Args[0])
+			for i := 0; i < 3; i++ {
+				if fa, ok := recv.(*ssa.FieldAddr); ok {
+					recv = ir.SeeThrough(fa.X)
+				}
+			}
+			if recv == ssa.Value(p) {
+				return f.Name()
+			}
+			continue
+		}
+		if depth > 0 && f.Blocks != nil {
+			for i, a := range call.Common().Args {
+				if i < len(f.Params) && ir.SeeThrough(a) == ssa.Value(p) {
+					if m := mutatesPublishParam(f, f.Params[i], depth-1); m != "" {
+						return f.Name() + " -> " + m
+					}
+				}
+			}
+		}
+	}
+	return ""
 }
